@@ -286,6 +286,8 @@ pub fn build(s: &Sexp) -> Result<P, String> {
         }
         "fail" => fail::<Val>(hx_str(&a[0])?).boxed(),
         "boxed" => build(&a[0])?.boxed(),
+        "complete" => complete_of(build(&a[0])?, menu_id(&a[1])?),
+        "complete-shell" => complete_shell_of(build(&a[0])?, a[1].atom()?),
         h => return Err(format!("unknown parser head {}", h)),
     })
 }
@@ -326,4 +328,50 @@ pub fn options_of(s: &Sexp) -> Result<OptionParser<Val>, String> {
         }
     }
     Ok(o)
+}
+
+pub const COMPLETER_VALUES: &[(&str, Option<&str>)] = &[
+    ("alpha", Some("first letter")),
+    ("alpine", None),
+    ("beta", Some("second")),
+    ("be ta", None),
+    ("it's", Some("quote")),
+    ("--dashy", None),
+];
+
+#[cfg(feature = "autocomplete")]
+fn complete_of(p: P, k: u32) -> P {
+    p.complete(move |v: &Val| {
+        let typed: Vec<u8> = match v {
+            Val::Bytes(b) => b.clone(),
+            _ => Vec::new(),
+        };
+        COMPLETER_VALUES
+            .iter()
+            .filter(|(c, _)| k == 1 || c.as_bytes().starts_with(&typed))
+            .map(|(c, d)| (c.to_string(), d.map(|x| x.to_string())))
+            .collect::<Vec<_>>()
+    })
+    .boxed()
+}
+#[cfg(not(feature = "autocomplete"))]
+fn complete_of(p: P, _k: u32) -> P {
+    p
+}
+
+#[cfg(feature = "autocomplete")]
+fn complete_shell_of(p: P, kind: &str) -> P {
+    use bpaf::ShellComp;
+    let op = match kind {
+        "file" => ShellComp::File { mask: None },
+        "filemask" => ShellComp::File { mask: Some("*.rs") },
+        "dir" => ShellComp::Dir { mask: None },
+        "raw" => ShellComp::Raw { bash: "_b", zsh: "_z", fish: "_f", elvish: "_e" },
+        _ => ShellComp::Nothing,
+    };
+    p.complete_shell(op).boxed()
+}
+#[cfg(not(feature = "autocomplete"))]
+fn complete_shell_of(p: P, _kind: &str) -> P {
+    p
 }
